@@ -24,6 +24,9 @@ func waterProjects(c *core.Ctx, n int, years int, salt int64) []*gen.Project {
 		if i%7 == 6 {
 			o.MinLayers, o.MaxLayers = 1, 2
 		}
+		if i%9 == 4 {
+			o.PTF = 1 + (i/9)%4
+		}
 		// sub-step counts: a rain ladder sweeps the count of sub-steps over a contiguous range (bare or cropped, no
 		// irrigation on top of it); every eighth project
 		if i%8 == 0 {
